@@ -42,6 +42,7 @@
 #endif
 
 #include <errno.h>
+#include <limits.h>             /* INT_MIN, INT_MAX */
 
 #include <regex.h>
 #include <ctype.h>
@@ -441,8 +442,8 @@ static int string_to_int (const char *val, int *p2int)
     long n;
 
     errno = 0;
-    n = strtoul (val, &p, 10);
-    if (errno || (*p != '\0'))
+    n = strtol (val, &p, 10);
+    if (errno || (p == val) || (*p != '\0') || (n < INT_MIN) || (n > INT_MAX))
         return (-1);
 
     *p2int = (int) n;
